@@ -127,3 +127,35 @@ impl Next<f64> for BadRaw {
     fn next(&mut self, input: f64) -> f64 { (self.f)(input) }
 }
 pub unsafe fn bad_unsafe_fn(p: *const f64) -> f64 { *p }
+
+/// C08/C09 controls: unguarded division by a dispersion, sqrt of a signed quantity, band from a signed width
+#[derive(Debug, Clone)]
+pub struct BadDiv {
+    period: usize,
+    prev: f64,
+    total: f64,
+}
+impl BadDiv {
+    pub fn new(period: usize) -> Result<Self> {
+        match period {
+            0 => Err(TaError::InvalidParameter),
+            _ => Ok(Self { period, prev: 0.0, total: 0.0 }),
+        }
+    }
+}
+impl Next<f64> for BadDiv {
+    type Output = f64;
+    fn next(&mut self, input: f64) -> f64 {
+        let spread = (input - self.prev).abs();
+        self.total = self.total + input - self.prev; // signed
+        self.prev = input;
+        let ratio = self.total / spread;             // 0/0 on a flat window
+        ratio + self.total.sqrt()                    // sqrt of a possibly negative value
+    }
+}
+impl Reset for BadDiv {
+    fn reset(&mut self) {
+        self.prev = 0.0;
+        self.total = 0.0;
+    }
+}
